@@ -54,11 +54,21 @@ def make_real(f: dict):
 
 
 def run_schedule(flt, sig: np.ndarray, blocks: List[int]) -> List[float]:
-    out, pos = [], 0
+    """The blocks a filter yields are read twice: at once, and again after the last call (a caller that collects the
+    blocks and joins them at the end).  Both readings are the filter's output; if they differ the run is marked with a
+    NaN so that it can equal no reference."""
+    out, held, pos = [], [], 0
     for n in blocks:
-        out += list(flt.process(sig[pos:pos + n]))
+        y = flt.process(sig[pos:pos + n])
+        held.append(y)
+        out += list(y)
         pos += n
-    out += list(flt.get_remaining())
+    y = flt.get_remaining()
+    held.append(y)
+    out += list(y)
+    later = [v for part in held for v in list(part)]
+    if later != out and not (len(later) == len(out) and all(a == b or (a != a and b != b) for a, b in zip(later, out))):
+        return later + [float("nan")]
     return out
 
 
